@@ -102,6 +102,15 @@ var targets = []target{
 	{"pkg/dbc", "MessageID.IsExtended"},
 	{"pkg/dbc", "MessageID.ToCAN"},
 	{"pkg/dbc", "MessageID.Validate"},
+	{"pkg/candevice", "ifInfoMsg.marshalBinary"},
+	{"pkg/candevice", "ifInfoMsg.unmarshalBinary"},
+	{"pkg/candevice", "BitTiming.marshalBinary"},
+	{"pkg/candevice", "BitTiming.unmarshalBinary"},
+	{"pkg/candevice", "CtrlMode.marshalBinary"},
+	{"pkg/candevice", "CtrlMode.unmarshalBinary"},
+	{"pkg/candevice", "Clock.unmarshalBinary"},
+	{"pkg/candevice", "BusErrorCounters.unmarshalBinary"},
+	{"pkg/candevice", "Stats.unmarshalBinary"},
 }
 
 const modPath = "go.einride.tech/can"
@@ -193,7 +202,7 @@ func (t lty) lean() string {
 			return t.name
 		}
 	case "sl":
-		return "BitVec 128"
+		return "BitVec 512"
 	}
 	refuse("no Lean type for %v", t.kind)
 	return ""
@@ -236,7 +245,7 @@ func ltype(T types.Type) lty {
 		return lty{kind: "struct", st: u, goT: T}
 	case *types.Slice:
 		if b, ok := u.Elem().Underlying().(*types.Basic); ok && b.Kind() == types.Uint8 {
-			// a byte slice: its first 16 bytes are modelled (a 128-bit vector) together with its length
+			// a byte slice: its first 64 bytes are modelled (a 512-bit vector) together with its length
 			return lty{kind: "sl"}
 		}
 	case *types.Interface:
@@ -266,8 +275,19 @@ func supported(T types.Type) (ok bool) {
 func structFields(st *types.Struct) []*types.Var {
 	var fs []*types.Var
 	for i := 0; i < st.NumFields(); i++ {
-		if supported(st.Field(i).Type()) {
-			fs = append(fs, st.Field(i))
+		f := st.Field(i)
+		if f.Name() == "_" {
+			continue
+		}
+		if f.Embedded() {
+			// promoted fields of an embedded struct appear under their own names
+			if es, ok := f.Type().Underlying().(*types.Struct); ok {
+				fs = append(fs, structFields(es)...)
+				continue
+			}
+		}
+		if supported(f.Type()) {
+			fs = append(fs, f)
 		}
 	}
 	return fs
@@ -299,10 +319,29 @@ func declareStruct(T types.Type) string {
 	var sb strings.Builder
 	fmt.Fprintf(&sb, "/-- struct `%s`: the fields that have a bit-vector / Bool rendering -/\nstructure %s where\n", key, name)
 	for _, f := range structFields(nt.Underlying().(*types.Struct)) {
-		fmt.Fprintf(&sb, "  %s : %s\n", f.Name(), ltype(f.Type()).lean())
+		fmt.Fprintf(&sb, "  %s : %s\n", leanIdent(f.Name()), ltype(f.Type()).lean())
 	}
 	structDecls = append(structDecls, sb.String())
 	return name
+}
+
+var leanKeywords = map[string]bool{"Type": true, "Sort": true, "Prop": true, "fun": true, "let": true, "have": true, "show": true,
+	"from": true, "at": true, "end": true, "open": true, "in": true, "do": true, "then": true, "else": true, "if": true,
+	"match": true, "with": true, "where": true, "by": true, "def": true, "theorem": true, "instance": true, "class": true,
+	"structure": true, "inductive": true, "namespace": true, "section": true, "variable": true, "universe": true,
+	"import": true, "export": true, "mutual": true, "private": true, "protected": true, "partial": true, "unsafe": true,
+	"noncomputable": true, "macro": true, "syntax": true, "notation": true, "infix": true, "prefix": true, "postfix": true,
+	"return": true, "for": true, "while": true, "try": true, "catch": true, "finally": true, "unless": true, "using": true,
+	"deriving": true, "extends": true, "abbrev": true, "axiom": true, "example": true, "opaque": true, "set_option": true,
+	"attribute": true, "local": true, "scoped": true, "calc": true, "suffices": true, "obtain": true, "nomatch": true,
+	"nofun": true, "forall": true, "exists": true, "true": true, "false": true, "default": true, "this": true, "at_": true}
+
+// leanIdent makes a Go identifier usable as a Lean identifier (keywords get a trailing underscore)
+func leanIdent(n string) string {
+	if leanKeywords[n] {
+		return n + "_"
+	}
+	return n
 }
 
 func lit(v *big.Int, w int) string {
@@ -484,7 +523,7 @@ func (c *ctx) expr(e ast.Expr, en *env) string {
 				}
 			}
 			delete(given, f.Name())
-			parts = append(parts, f.Name()+" := "+v)
+			parts = append(parts, leanIdent(f.Name())+" := "+v)
 		}
 		if len(given) > 0 {
 			refuse("composite literal sets a field without a Lean rendering")
@@ -502,7 +541,7 @@ func (c *ctx) expr(e ast.Expr, en *env) string {
 					if cur, ok := en.vars[fieldKey(o, x.Sel.Name)]; ok {
 						return cur
 					}
-					return "(" + base[len("¶"):] + "." + x.Sel.Name + ")"
+					return "(" + base[len("¶"):] + "." + leanIdent(x.Sel.Name) + ")"
 				}
 			}
 		}
@@ -682,6 +721,45 @@ func (c *ctx) call(x *ast.CallExpr, en *env, wantValue bool) string {
 				if full == "fmt.Errorf" || full == "errors.New" {
 					return "true"
 				}
+			}
+		}
+	}
+	if id, ok := x.Fun.(*ast.Ident); ok && id.Name == "len" && len(x.Args) == 1 {
+		if _, isBuiltin := c.p.info.Uses[id].(*types.Builtin); isBuiltin {
+			ro := c.rootObj(x.Args[0])
+			if ro == nil || c.slLen[ro] == "" {
+				refuse("len of something other than a byte-slice variable")
+			}
+			return c.slLen[ro] // len() has type int: a 64-bit vector
+		}
+	}
+	// intrinsics: mdlayher/netlink/nlenc (native byte order = little-endian on the platforms the package builds for)
+	if se, ok := x.Fun.(*ast.SelectorExpr); ok {
+		if id, ok := se.X.(*ast.Ident); ok {
+			if pn, ok := c.p.info.Uses[id].(*types.PkgName); ok && pn.Imported().Path() == "github.com/mdlayher/netlink/nlenc" {
+				nb := map[string]int{"Uint8": 1, "Uint16": 2, "Uint32": 4, "Uint64": 8, "Int32": 4,
+					"PutUint8": 1, "PutUint16": 2, "PutUint32": 4, "PutUint64": 8, "PutInt32": 4}[se.Sel.Name]
+				if nb == 0 {
+					refuse("nlenc.%s", se.Sel.Name)
+				}
+				w := c.window(x.Args[0], en)
+				// nlenc panics unless the slice is exactly nb bytes long
+				if w.n >= 0 && w.n != nb {
+					en.oks = append(en.oks, "false")
+				} else if w.n < 0 {
+					if w.lo != 0 {
+						refuse("nlenc on an open-ended slice with an offset")
+					}
+					en.oks = append(en.oks, fmt.Sprintf("(%s == %d#64)", w.lenE, nb))
+				}
+				c.windowOk(w, nb, en)
+				if strings.HasPrefix(se.Sel.Name, "Put") {
+					if wantValue {
+						refuse("value of nlenc.Put")
+					}
+					return c.windowWrite(w, nb, c.expr(x.Args[1], en), en)
+				}
+				return c.windowRead(w, nb)
 			}
 		}
 	}
@@ -870,7 +948,7 @@ func (c *ctx) structValue(o types.Object, en *env) string {
 	var ups []string
 	for _, f := range structFields(t.st) {
 		if cur, ok := en.vars[fieldKey(o, f.Name())]; ok {
-			ups = append(ups, f.Name()+" := "+cur)
+			ups = append(ups, leanIdent(f.Name())+" := "+cur)
 		}
 	}
 	if len(ups) == 0 {
@@ -927,7 +1005,7 @@ func (c *ctx) window(e ast.Expr, en *env) win {
 		}
 		w.n = hi - lo
 	case "sl":
-		w.width = 128
+		w.width = 512
 		if hi >= 0 {
 			if lo > hi {
 				refuse("slice bounds")
@@ -948,7 +1026,7 @@ func (c *ctx) window(e ast.Expr, en *env) win {
 	}
 	if t.kind == "sl" {
 		if w.root == nil || c.slLen[w.root] == "" {
-			refuse("byte slice that is not a parameter")
+			refuse("byte slice whose length is not known (neither a parameter nor made with a constant length)")
 		}
 		w.lenE = c.slLen[w.root]
 	}
@@ -960,7 +1038,7 @@ func (c *ctx) windowOk(w win, n int, en *env) {
 	if w.width == 64 {
 		return
 	}
-	if w.lo+n > 16 {
+	if w.lo+n > 64 {
 		en.oks = append(en.oks, "false")
 		return
 	}
@@ -1463,6 +1541,26 @@ func (c *ctx) assign(x *ast.AssignStmt, en *env, o *out) {
 	if u, ok := rhs.(*ast.UnaryExpr); ok && u.Op == token.AND {
 		refuse("a pointer to a variable is stored (aliasing is not modelled)")
 	}
+	if ce, ok := rhs.(*ast.CallExpr); ok && x.Tok == token.DEFINE {
+		if fid, ok := ce.Fun.(*ast.Ident); ok && fid.Name == "make" {
+			if _, isBuiltin := c.p.info.Uses[fid].(*types.Builtin); isBuiltin {
+				// buf := make([]byte, N) with a constant N: a zeroed byte slice of known length
+				if len(ce.Args) != 2 || ltype(c.typeOf(ce)).kind != "sl" {
+					refuse("make of something other than a byte slice with a length")
+				}
+				cv := c.p.info.Types[ce.Args[1]].Value
+				if cv == nil {
+					refuse("make with a length that is not a constant")
+				}
+				n, _ := constant.Int64Val(constant.ToInt(cv))
+				id := lhs.(*ast.Ident)
+				obj := c.p.info.Defs[id]
+				c.slLen[obj] = fmt.Sprintf("%d#64", n)
+				c.bind(obj, id.Name, ltype(obj.Type()), "0#512", en, o)
+				return
+			}
+		}
+	}
 	switch x.Tok {
 	case token.DEFINE:
 		id := lhs.(*ast.Ident)
@@ -1675,21 +1773,22 @@ func translate(repo string, tg target) {
 		add := func(id *ast.Ident, T types.Type) {
 			o := p.info.Defs[id]
 			t := ltype(T)
+			pn := leanIdent(id.Name)
 			if t.kind == "struct" {
-				en.vars[o] = "¶" + id.Name
+				en.vars[o] = "¶" + pn
 				structOf[len(params)] = t.st
-				params = append(params, id.Name)
-				decl = append(decl, "("+id.Name+" : "+declareStruct(T)+")")
+				params = append(params, pn)
+				decl = append(decl, "("+pn+" : "+declareStruct(T)+")")
 				return
 			}
-			en.vars[o] = id.Name
-			params = append(params, id.Name)
-			decl = append(decl, "("+id.Name+" : "+t.lean()+")")
+			en.vars[o] = pn
+			params = append(params, pn)
+			decl = append(decl, "("+pn+" : "+t.lean()+")")
 			if t.kind == "sl" {
 				// the length of the slice travels with it
-				params = append(params, id.Name+"_len")
-				decl = append(decl, "("+id.Name+"_len : BitVec 64)")
-				c.slLen[o] = id.Name + "_len"
+				params = append(params, pn+"_len")
+				decl = append(decl, "("+pn+"_len : BitVec 64)")
+				c.slLen[o] = pn + "_len"
 			}
 		}
 		goIdx := 0
@@ -1769,7 +1868,7 @@ func translate(repo string, tg target) {
 				if t := ltype(c.recvObj.Type()); t.kind == "struct" {
 					recvType = declareStruct(c.recvObj.Type())
 				} else if t.kind == "sl" {
-					recvType = "BitVec 128"
+					recvType = "BitVec 512"
 				}
 			}
 		}
